@@ -514,10 +514,10 @@ def run(ck):
     ck.log((out.strip() or err.strip())[-300:])
     translator_ok = rc == 0
     if translator_ok:
-        proof_ok, failing = ck.proof_stage('MpVerif.C04.Props', 'MpVerif/C04/Props.lean', 'C04_', ['MpVerif/C04/*.lean', 'MpVerif/Gen/ValCvt.lean'], expect_min=56)
+        proof_ok, failing = ck.proof_stage('MpVerif.C04.Props', 'MpVerif/C04/Props.lean', 'C04_', ['MpVerif/C04/*.lean', 'MpVerif/Gen/ValCvt.lean'], expect_min=61)
     else:
         proof_ok, failing = False, ['translator: ' + (out + err).strip()[-400:]]
-        ck.cov.update({'obligations': 56, 'discharged': 0, 'checker_cmd': 'translators/gen_valcvt.py failed: a construct of the anchored code is no longer understood'})
+        ck.cov.update({'obligations': 61, 'discharged': 0, 'checker_cmd': 'translators/gen_valcvt.py failed: a construct of the anchored code is no longer understood'})
     ck.log('proof stage: ok=%s failing=%s' % (proof_ok, failing[:8]))
     if ck.tier == 'thorough' and proof_ok:
         bad = ck.leanchecker(['MpVerif.C04.Props'])
@@ -1803,8 +1803,11 @@ def verdicts(ck, cases, st, proof_ok, failing):
             ck.add_violation('driver:bad-op', 'the Lean driver rejected an operation: %s' % c.bad_ops[0], replay_obj(c), found_input=False)
             continue
         if getattr(c, 'model_wf2', None) != 'wf2 1 1':
-            ck.add_violation('wf2:' + str(getattr(c, 'model_wf2', None)), 'on the real graph: every node of every entry registered / traceWF (hypotheses of C04_history_independent_registered and C04_built_certificates_exist, established by the modelled constructors): %s' % getattr(c, 'model_wf2', None),
+            ck.add_violation('wf2:' + str(getattr(c, 'model_wf2', None)), 'on the real graph: every node of every entry registered / traceWF (hypotheses of C04_history_independent_registered and of tracePost_exists, checked here on each real graph): %s' % getattr(c, 'model_wf2', None),
                              replay_obj(c), found_input=False)
+        if c.lg.get('unreg', 0) != 0 or c.lg.get('dupnames', 0) != 0 or 'unreg' not in c.lg:
+            ck.add_violation('registration:pointers', 'on the real presolver: %s entry node pointers are not members of val_nodes_, %s registered nodes share a name (the model identifies nodes by name)' % (c.lg.get('unreg'), c.lg.get('dupnames')),
+                             replay_obj(c), found_input=True)
         if c.model_wf != 'wf 1 1':
             ck.add_violation('wf:' + str(c.model_wf), 'well-formedness hypotheses (inBounds, wfVars) of the theorems fail on the real graph: %s' % c.model_wf,
                              replay_obj(c), found_input=False)
